@@ -15,6 +15,13 @@ R38c only the owner's disconnect releases an id: on_client_disconnect may remove
      channel` or through a reverse (channel -> id) map, in which case every insertion into that reverse map must be
      dominated by the same "id not connected yet" guard as the insertion into the forward map (otherwise the disconnect
      of a *rejected* duplicate connection evicts the connected owner, and the id can be registered a second time).
+R38d an open engine connection is a recorded one: every normal exit of _on_delayed_client_connect either has written the channel
+     into the channel map or has called close() on the channel (must-pass-through on the CFG, the handler of a failing id
+     handshake included) - an open but unrecorded connection keeps being served while has_connected_engine_id says no, so the
+     next registration of that engine id succeeds and two engines share it.
+R38e a successful registration reserves the id until its websocket arrives: the success path of handle_RegisterEngineMsg records
+     the issued id somewhere has_connected_engine_id (or the guard) can see. Today nothing is recorded between the POST and
+     the end of the websocket's id handshake (open known finding).
 """
 from __future__ import annotations
 
@@ -170,6 +177,36 @@ def run(ctx) -> None:
             ctx.ok("R38b", inst)
         else:
             ctx.fail("R38b", dc, w.ast, inst, "channel map entry overwritten without checking that the id is not already connected")
+    # ---- R38d
+    ctx.rule("R38d", "every exit of the connect handshake has recorded or closed the channel")
+    ch_par = dc.node.args.args[1].arg
+
+    def _settles(n) -> bool:
+        if any(w.id == n.id for w in writes):
+            return True
+        return any(call_attr(c) == "close" and isinstance(c.func, ast.Attribute) and norm(c.func.value) == ch_par for c in n.calls())
+    pth = g2.path_to_exit_avoiding(None, _settles, follow_exc=True)
+    inst = "_on_delayed_client_connect: the channel is recorded in the channel map or closed on every exit"
+    if pth is None:
+        ctx.ok("R38d", inst)
+    else:
+        rets = [x for x in pth if x.kind == "stmt" and isinstance(x.ast, ast.Return)]
+        where = f" (exit at line {rets[-1].lineno})" if rets else ""
+        ctx.fail("R38d", dc, rets[-1].ast if rets else dc.node, inst, f"a path leaves the handshake{where} with the connection open and not "
+                 "recorded: the engine behind it is served (validate_msg only asks for registered engine data) while "
+                 "has_connected_engine_id is False for its id, so a second engine registers under the same id and connects", pth)
+    # ---- R38e
+    ctx.rule("R38e", "a successful registration reserves the engine id")
+    hh = prog.func("openpectus.aggregator.aggregator_message_handlers:AggregatorMessageHandlers.handle_RegisterEngineMsg")
+    reserves = [n for n in ast.walk(hh.node) if isinstance(n, ast.Call) and isinstance(n.func, ast.Attribute)
+                and any(k in n.func.attr for k in ("reserve", "pending", "expect"))]
+    inst = "handle_RegisterEngineMsg: the issued id is reserved until the websocket's id handshake ends"
+    if reserves:
+        ctx.ok("R38e", inst)
+    else:
+        ctx.fail("R38e", hh, hh.node, inst, "an id counts as connected only once _on_delayed_client_connect has written the channel map; "
+                 "between the registration POST and the end of the websocket's id handshake nothing marks the id as taken, so a "
+                 "second registration with the same names succeeds, and whichever websocket answers first evicts the other engine")
     # release on disconnect
     dd = prog.func("openpectus.protocol.aggregator_dispatcher:AggregatorDispatcher.on_client_disconnect")
     ctx.analysed(dd)
